@@ -26,6 +26,8 @@ pub struct FlowCase {
     pub nontrivial: bool,
     pub crash_at: Option<u64>,
     pub max_steps: u64,
+    /// Wall clock at the start of the run (None: the default, late 2023).
+    pub start_wall_ns: Option<i128>,
 }
 
 impl FlowCase {
@@ -43,6 +45,7 @@ impl FlowCase {
             nontrivial: false,
             crash_at: None,
             max_steps: 5_000,
+            start_wall_ns: None,
         }
     }
     pub fn shape_key(&self) -> u64 {
@@ -76,6 +79,9 @@ pub fn make_world(case: &FlowCase) -> W {
             g.cup = Some(ServerKeys::generate(&mut krng, &case.key_ids));
         }
         g.crash_at = case.crash_at;
+        if let Some(t) = case.start_wall_ns {
+            g.wall_ns = t;
+        }
     }
     w
 }
@@ -154,6 +160,11 @@ pub fn gen_apps(rng: &mut Rng, n: usize) -> Vec<AppSpec> {
             }
             if rng.chance(1, 3) {
                 a.day = Some(4000 + rng.below(999) as u32);
+            }
+            if rng.chance(1, 3) {
+                // embedder-defined attributes: several, so that any order-dependence in serialisation shows
+                let n = 2 + rng.usize(5);
+                a.extra = (0..n).map(|k| (format!("x-attr{}", k), if rng.chance(1, 5) { String::new() } else { format!("v{}", rng.below(1000)) })).collect();
             }
             a
         })
